@@ -68,7 +68,7 @@ func boundaryDigits(m *big.Int) []uint64 {
 }
 
 // quotientStrings returns the structured 256-bit quotients M: one boundary digit in one position with the other
-// digits all zero or all ones, and the full product of a five-value digit set.
+// digits all zero or all ones, and the full product of a six-value digit set.
 func quotientStrings(m *big.Int, digits []uint64) []*big.Int {
 	var out []*big.Int
 
@@ -83,8 +83,8 @@ func quotientStrings(m *big.Int, digits []uint64) []*big.Int {
 
 	// the largest boundary digit below 2^64 that is not a plain pattern, and its successor
 	c := new(big.Int).Sub(ref.Two256(), m)
-	zmax := new(big.Int).Div(new(big.Int).Lsh(big.NewInt(1), uint(c.BitLen()+62)), c).Uint64()
-	ql := []uint64{0, 1, ^uint64(0), zmax, zmax + 1}
+	zmax := new(big.Int).Div(new(big.Int).Lsh(big.NewInt(1), uint(c.BitLen()+63)), c).Uint64()
+	ql := []uint64{0, 1, 1 << 63, ^uint64(0), zmax, zmax + 1}
 
 	for _, a := range ql {
 		for _, b := range ql {
